@@ -52,3 +52,13 @@ _P["C15"] = {
     "assumptions": ["independence of lookup results is observed (mutate-then-look-up-again, 32 goroutines; -race in the thorough tier), not proved: the model is pure"],
     "race": {"thorough": True},
 }
+
+
+_P["C17"] = {
+    "explanation": "Theorems C17_* (Properties/C17.v) over Model/NewMatchField.v for every registered name, value and window: placement, exact mask, "
+                   "widths, value inside mask, errors for unrepresentable inputs, never a panic, register form = dedicated constructor's bytes; "
+                   "correspondence over all registered fields and calling conventions with many Go argument types.",
+    "trusted_base": ["math/big semantics (Lsh, And, BitLen, Bytes) as Z operations in Model/NewMatchField.v",
+                     "Spec/OvsFields.v for the header of the expected field"],
+    "assumptions": ["mask arguments in the correspondence stay below 2^40 in magnitude"],
+}
